@@ -13,7 +13,7 @@ from .. import framework as fw
 from ..framework import hx, unhx
 from ..oracle import cstread
 
-GEN_TABLES = ("escape", "ident_re", "keywords")
+GEN_TABLES = ("escape", "ident_re", "keywords", "name_re", "name_escapes")
 
 ALPHABET = ["a", "Z", "0", "_", "'", "-", ".", '"', "\\", "$", "{", "}", " ", "\n", "\r", "\t", "é"]
 KEYWORDS = ["if", "then", "else", "assert", "with", "let", "in", "rec", "inherit", "or", "true", "null"]
